@@ -54,7 +54,7 @@ def check_coarse(case):
                     rng.choice([rng.uniform(0, H - 0.01), float(rng.randint(0, H - 1)), rng.randint(0, H - 1) + 0.5]),
                     rng.choice([rng.uniform(0, D - 0.01), float(rng.randint(0, D - 1)), rng.randint(0, D - 1) + 0.5]), i))
     pipe = A.ReplayCompose([A.CoarseDropout(p=1.0, **kw)], keypoint_params=A.KeypointParams('xyz'))
-    random.seed(case['seed'])
+    R.seed(case['seed'])
     try:
         res = pipe(image=img, mask=mask, keypoints=kps)
     except Exception as e:  # noqa
@@ -101,7 +101,7 @@ def check_grid(case):
     img = image_of(shape, case['dtype'], rs, case.get('channels'))
     mask = rs.randint(1, 5, shape).astype(np.uint8)
     pipe = A.ReplayCompose([A.GridDropout(p=1.0, **kw)])
-    random.seed(case['seed'])
+    R.seed(case['seed'])
     try:
         res = pipe(image=img, mask=mask)
     except ValueError:
@@ -137,7 +137,7 @@ def check_pixel(case):
     img = image_of(shape, case['dtype'], rs, case.get('channels'))
     mask = rs.randint(1, 5, shape).astype(np.uint8)
     pipe = A.ReplayCompose([A.PixelDropout(p=1.0, **kw)])
-    random.seed(case['seed'])
+    R.seed(case['seed'])
     try:
         res = pipe(image=img, mask=mask)
     except Exception as e:  # noqa
@@ -165,7 +165,7 @@ def check_pixel(case):
 def gen_case(rng, kind):
     shape = rng.sample([4, 5, 6, 7, 8, 9, 10, 12], 3)
     H, W, D = shape
-    case = {'kind': kind, 'shape': shape, 'seed': rng.randint(0, 10 ** 6), 'dtype': rng.choice(DTYPES),
+    case = {'kind': kind, 'shape': shape, 'seed': R.pick_seed(rng), 'dtype': rng.choice(DTYPES),
             'channels': rng.choice([None, None, 2])}
     if kind == 'coarse':
         if rng.random() < 0.5:
